@@ -160,10 +160,16 @@ def o152(ctx):
     dl = [e for e in it.events if e.kind == "call" and e.name == "numpy.delete"]
     if not il or not dl or not upd:
         raise Unsupported("remove_tilts structure not recognised", fn)
-    nf = il[0].kwargs.get("numbered_from_1", il[0].arg(1))
-    ctx.count(1)
-    if nf is None or to_term(nf) != sym("numbered_from_1"):
-        ctx.finding(q, il[0].node, "the numbered_from_1 option must be passed on to indices_load", il[0].node, m)
+    for e_ in il:  # every path that loads the indices (file and list / array input alike)
+        nf = e_.kwargs.get("numbered_from_1", e_.arg(1))
+        ctx.count(1)
+        if nf is None or to_term(nf) != sym("numbered_from_1"):
+            ctx.finding(q, e_.node, "the numbered_from_1 option must be passed on to indices_load on every path (file, list and array input)",
+                        e_.node, m)
+        a0 = to_term(e_.arg(0)) if e_.arg(0) is not None else None
+        ctx.count(1)
+        if a0 is None or a0 != sym("idx"):
+            ctx.finding(q, e_.node, "the caller's indices must reach indices_load as given", e_.node, m, extracted=tm.show(a0)[:80] if a0 is not None else None)
     ax = dl[0].kwargs.get("axis", dl[0].arg(2))
     ctx.count(1)
     ok = ax is not None and is_pyconst(ax) and pyval(ax) == 0 and to_term(dl[0].arg(0)) == sym("stack") \
@@ -200,6 +206,18 @@ def o152(ctx):
     ds = [e for e in it.events if e.kind == "call" and e.name.endswith("downscale_local_mean")]
     if not ds or not upd:
         raise Unsupported("bin structure not recognised", fn)
+    for u_ in upd:
+      ut = to_term(u_.args[1])
+      ctx.count(1)
+      if not (ut.op == "call" and str(ut.args[0]).endswith("downscale_local_mean")):
+        # another way of averaging blocks on some path: sums of raw stack slices are evaluated in the stack's own type
+        raw_sums = [n for n in tm.walk(ut) if n.op == "add" and any(x.op == "call" and x.args[0] == "getitem" and x.args[1] == sym("stack") for x in n.args)]
+        if raw_sums:
+            ctx.finding(q, u_.node, "on some path the block mean is formed by adding slices of the stack itself: the sum is evaluated in the "
+                        "stack's own type, so for int16 stacks it wraps around whenever a block sum leaves the int16 range (the result is no "
+                        "longer the block mean)", u_.node, m, extracted=tm.show(ut)[:200])
+        else:
+            raise Unsupported("bin: the stack is not updated with the downscale_local_mean result on every path", u_.node)
     fac = ds[0].arg(1)
     ctx.count(1, {"bin factors": tm.show(to_term(fac))[:60]})
     want = T("vec", const(1), mk("int", sym("b")), mk("int", sym("b")))
